@@ -1934,6 +1934,26 @@ OptResult NifFile::OptimizeFor(OptOptions& options) {
 				if (shape->IsSkinned()) {
 					auto skinInst = hdr.GetBlock<NiSkinInstance>(shape->SkinInstanceRef());
 					if (skinInst) {
+						// LE keeps the vertex weights in NiSkinData. If it has none, take them from the vertex data.
+						auto skinData = hdr.GetBlock(skinInst->dataRef);
+						if (skinData && !skinData->hasVertWeights) {
+							for (auto& bone : skinData->bones)
+								bone.vertexWeights.clear();
+
+							for (uint16_t vid = 0; vid < bsTriShape->GetNumVertices(); vid++) {
+								auto& vertex = bsTriShape->vertData[vid];
+								for (size_t wi = 0; wi < 4; wi++) {
+									if (vertex.weights[wi] != 0.0f && vertex.weightBones[wi] < skinData->bones.size())
+										skinData->bones[vertex.weightBones[wi]].vertexWeights.emplace_back(vid, vertex.weights[wi]);
+								}
+							}
+
+							for (auto& bone : skinData->bones)
+								bone.numVertices = static_cast<uint16_t>(bone.vertexWeights.size());
+
+							skinData->hasVertWeights = 1;
+						}
+
 						auto skinPart = hdr.GetBlock(skinInst->skinPartitionRef);
 						if (skinPart) {
 							bool triangulated = skinPart->ConvertStripsToTriangles();
